@@ -15,6 +15,7 @@ package main
 //              boundary, file cut there (finding C09-F2)
 //   craftswap  a message stored uncompressed with plausible LZ4 block headers at the right offsets,
 //              two whole AES blocks exchanged (finding C09-F3)
+//   lifetime, listflight, listconc, crash: see o_store_life.go (results stay what they were; List at every moment)
 //   conc       8 goroutines doing Get/Set/Delete on one id / on four ids: every Get returns a complete
 //              value that was Set for that id, or not-found
 //   probe      the lock table alone (instant in-memory impl that detects two writers, or a writer and a
@@ -804,6 +805,14 @@ func runC09Store(argv []string) int {
 	good := fl.Int("good", 1, "aligned: number of sealed blocks in front of the coinciding boundary")
 	layout := fl.Int("layout", 0, "aligned: 0 tuned chunk first, 1 tuned chunk last, 2 mixed compressibility")
 	tail := fl.Int("tail", 100000, "aligned: pseudo-random bytes behind the boundary")
+	threshold := fl.Int("threshold", 1<<20, "lifetime: size threshold")
+	delta := fl.Int("delta", 0, "lifetime: message size = threshold + delta")
+	mode := fl.String("mode", "wcs", "lifetime/listflight: wcs (WriteControlledStore) | unchecked (SetUnchecked) | direct (bare onDiskStore)")
+	kbytes := fl.Int("k", 0, "listflight/crash: bytes the reader delivers before it waits")
+	overwrite := fl.Bool("overwrite", false, "listflight/crash: the Set in progress overwrites a stored id")
+	abort := fl.Bool("abort", false, "listflight: the reader of the held Set fails instead of completing")
+	cdir := fl.String("dir", "", "crashchild: store directory")
+	cid := fl.Int("id", 1, "crashchild: id")
 	if err := fl.Parse(argv); err != nil {
 		return 2
 	}
@@ -823,6 +832,9 @@ func runC09Store(argv []string) int {
 			return 2
 		}
 	}
+	if *cas == "crashchild" {
+		return c09CrashChild(*cdir, *cid, *length, *cseed, *kbytes)
+	}
 	o := &c09Run{replayDir: *replayDir, seenClass: map[string]bool{}}
 	o.res.Stats = map[string]int{}
 	thorough := *tier == "thorough"
@@ -841,6 +853,10 @@ func runC09Store(argv []string) int {
 		o.alignedSweeps(*seed, thorough)
 		o.lz4align(*seed)
 		o.craftswap(*seed)
+		o.lifetimes(*seed, thorough)
+		o.listflights(*seed, thorough)
+		o.crashes(*seed, thorough)
+		o.multideletes(*seed)
 		nops := 150
 		if thorough {
 			nops = 1500
@@ -876,6 +892,20 @@ func runC09Store(argv []string) int {
 		o.conc(*goroutines, *ops, *ids, *cseed, *sem)
 	case "probe":
 		o.probe(*goroutines, *ms)
+	case "lifetime":
+		o.lifetimeDirected(*threshold, *delta, *kind, *mode, *cseed)
+	case "lifetime-random":
+		o.lifetimeRandom(*cseed, *ops, *mode)
+	case "lifetime-conc":
+		o.lifetimeConc(*cseed, *goroutines, *ops)
+	case "listflight":
+		o.listflight(*mode, *kbytes, *overwrite, *abort, *cseed)
+	case "listconc":
+		o.listConc(*mode, *ms, *cseed)
+	case "crash":
+		o.crash(*kbytes, *overwrite, *cseed)
+	case "multidelete":
+		o.multidelete(*mode, *kbytes, *cseed)
 	default:
 		fmt.Fprintln(os.Stderr, "unknown case", *cas)
 		return 2
@@ -889,6 +919,8 @@ func runC09Store(argv []string) int {
 		{"oracle": "c09store", "case": "roundtrip", "what": "Get(Set(b)) == b for lengths around 64 KiB / 256 KiB multiples, zeros/text/random/mixed"},
 		{"oracle": "c09store", "case": "corrupt", "what": "flip/truncate/drop/swap/dup/append/wrong passphrase on 1-5 block files: error or exact bytes"},
 		{"oracle": "c09store", "case": "aligned", "what": "the same sweep on contents built so that sealed block 1, 2 or 3 starts exactly where an LZ4 data block starts (mixed compressibility): a damaged later block must be an error, not a silent prefix"},
+		{"oracle": "c09store", "case": "lifetime", "what": "every slice Get returned is kept and compared again after later Gets (same id, other ids of smaller/equal/larger size), Set, overwrite, Delete, List; sizes around 64 KiB, 256 KiB, 1 MiB, 4 MiB"},
+		{"oracle": "c09store", "case": "listflight+crash", "what": "List while a Set is held in progress / after its reader failed / after the process was killed: every stored id, nothing that was never given to Set; Get of the interrupted id is an error or exact bytes"},
 		{"oracle": "c09store", "case": "conc+probe", "what": "8 goroutines Get/Set/Delete through WriteControlledStore; lock-table exclusion probe"},
 	}
 	if o.res.Violations == nil {
